@@ -13,6 +13,14 @@ EPOCH = datetime.datetime(1970, 1, 1, tzinfo=UTC)
 FIXED = [datetime.timezone(datetime.timedelta(hours=5, minutes=30)),
          datetime.timezone(datetime.timedelta(hours=14)),
          datetime.timezone(datetime.timedelta(hours=-11))]
+# offsets with a sub-minute and a sub-second part (local mean time): the
+# instant is wall time minus the WHOLE offset, microseconds included
+SUBSECOND = [datetime.timezone(datetime.timedelta(seconds=3217,
+                                                  microseconds=200000)),
+             datetime.timezone(-datetime.timedelta(seconds=17761,
+                                                   microseconds=440000)),
+             datetime.timezone(datetime.timedelta(seconds=30)),
+             datetime.timezone(datetime.timedelta(microseconds=999999))]
 ZONE_FIELDS = [('CEST', 7200), ('EST', -18000), ('UTC', 0), ('IST', 19800),
                ('LHDT', 39600), (None, None)]
 DST_ZONES = ['America/New_York', 'Europe/London', 'Australia/Lord_Howe',
@@ -57,6 +65,14 @@ def forms(t, zones):
         yield 'aware-subclass', Stamp.fromtimestamp(t, tz=FIXED[0]), t
     for i, tz in enumerate(FIXED):
         yield 'aware-fixed%d' % i, aware.astimezone(tz), t
+    if t % 5 == 0:
+        for i, tz in enumerate(SUBSECOND):
+            # the same instant t (+ 0, 1, 999999 microseconds) seen from a
+            # zone whose offset has a fractional second
+            for us in (0, 999999) if t % 2 else (1, 500000):
+                yield 'aware-subsecond%d-us%d' % (i, us), (
+                    aware + datetime.timedelta(microseconds=us)
+                ).astimezone(tz), t
     st = time.struct_time((naive.year, naive.month, naive.day, naive.hour,
                            naive.minute, naive.second, naive.weekday(),
                            naive.timetuple().tm_yday, 0))
